@@ -2043,6 +2043,15 @@ def truncate_json_overflow(data):
     the JSON limits for integers, i.e. (-2^53, 2^53 - 1], in case the values are implicitly
     converted during serialization.
     """
+    if isinstance(data, np.ndarray) and data.ndim == 0:
+        data = data[()]  # 0-d arrays can not be iterated over; handle the scalar they hold
+    if isinstance(data, (np.integer, np.floating)):
+        # NumPy scalars (other than float64) are not instances of int or float; check their Python value
+        value = data.item()
+        if isinstance(value, np.generic):
+            return data
+        truncated = truncate_json_overflow(value)
+        return data if truncated is value else truncated
     if isinstance(data, collections.abc.Mapping):
         return {k: truncate_json_overflow(v) for k, v in data.items()}
     elif isinstance(data, collections.abc.Iterable) and not isinstance(data, str):
